@@ -14,12 +14,15 @@ import (
 // are embedded; a source may end in a page that cannot be read, which the collection
 // reports as an error item of its own - and hands over together with the items asked for,
 // so that a source delivers more than the number requested. What a source's items are is
-// defined by draining it alone; the feed must be the reference merge of those lists under
+// written down with the source (every item of every page, then the error item); the feed must be the reference merge of those lists under
 // every chunking.
 type pagedSpec struct {
 	Pages []int `json:"pages"` // items per page
 	Bad   bool  `json:"bad"`   // the last page refers to a next page that cannot be read
 	Equal bool  `json:"equal"` // all items carry the same published time
+	// Totals: every page states a totalItems - its own number of items (as servers that count
+	// per page do), or zero; the field is advisory and says nothing about later pages
+	Totals string `json:"totals,omitempty"`
 }
 
 func (p pagedSpec) build(si int) pub.Container {
@@ -45,6 +48,12 @@ func (p pagedSpec) build(si int) pub.Container {
 			serial++
 		}
 		page := map[string]any{"type": "OrderedCollectionPage", "orderedItems": items}
+		switch p.Totals {
+		case "per-page":
+			page["totalItems"] = float64(len(items))
+		case "zero":
+			page["totalItems"] = 0.0
+		}
 		if next := mk(k + 1); next != nil {
 			page["next"] = next
 		}
@@ -55,6 +64,25 @@ func (p pagedSpec) build(si int) pub.Container {
 		ev.Fatal("paged sources part: %v", err)
 	}
 	return c
+}
+
+func (p pagedSpec) truth(si int) []labelled {
+	var out []labelled
+	serial := 0
+	for _, n := range p.Pages {
+		for j := 0; j < n; j++ {
+			ts := time.Date(2021, 1, 1, 12, 0, 0, 0, time.UTC).Add(-time.Duration(2*serial+si) * time.Minute)
+			if p.Equal {
+				ts = time.Date(2021, 1, 1, 12, 0, 0, 0, time.UTC)
+			}
+			out = append(out, labelled{fmt.Sprintf("s%d-i%d", si, serial), ts})
+			serial++
+		}
+	}
+	if p.Bad {
+		out = append(out, labelled{"FAILURE", time.Time{}})
+	}
+	return out
 }
 
 type labelled struct {
@@ -99,7 +127,10 @@ func runPaged(specs []pagedSpec, reqs []int) (key, msg string) {
 	var heads [][]labelled
 	var srcs []pub.Container
 	for i, s := range specs {
-		heads = append(heads, drainAlone(s.build(i)))
+		// the truth is written from the specification of the source, not read back from the
+		// collection code: every item of every page in order, then the error item if the last
+		// reference cannot be read
+		heads = append(heads, s.truth(i))
 		srcs = append(srcs, s.build(i))
 	}
 	var want []string
@@ -154,10 +185,15 @@ func pagedPart(r *ev.Report) {
 	var specs []pagedSpec
 	for _, pages := range [][]int{{1}, {2}, {3}, {1, 1}, {2, 1}, {1, 2}, {2, 2}, {0, 1}, {1, 0, 1}} {
 		for _, bad := range []bool{false, true} {
-			specs = append(specs, pagedSpec{pages, bad, false})
+			specs = append(specs, pagedSpec{Pages: pages, Bad: bad})
 		}
 	}
-	specs = append(specs, pagedSpec{[]int{2, 1}, true, true}, pagedSpec{[]int{}, true, false}, pagedSpec{[]int{}, false, false})
+	specs = append(specs, pagedSpec{Pages: []int{2, 1}, Bad: true, Equal: true}, pagedSpec{Pages: []int{}, Bad: true}, pagedSpec{Pages: []int{}})
+	for _, pages := range [][]int{{1, 1}, {2, 1}, {2, 2}, {1, 0, 1}} {
+		for _, totals := range []string{"per-page", "zero"} {
+			specs = append(specs, pagedSpec{Pages: pages, Totals: totals})
+		}
+	}
 	var tuples [][]pagedSpec
 	for _, a := range specs {
 		tuples = append(tuples, []pagedSpec{a})
